@@ -455,9 +455,12 @@ def _keygen(func, ignored, /, *args, **kwds):
     if inspect.isfunction(func):
         try: # this is a pretty good filter that: user_args[0] is self
             _bound = getattr(user_args[0], func.__name__)
-            assert inspect.ismethod(_bound) # not a method of a builtin (str.count, ...)
+            # (not asserts: python -O strips them, and the key must not depend on that)
+            if not inspect.ismethod(_bound): # a method of a builtin (str.count, ...)
+                raise AttributeError(func.__name__)
             _self = getattr(_bound, '__self__')
-            assert _self == user_args[0]
+            if not (_self == user_args[0]):
+                raise AttributeError(func.__name__)
         except:
             _bound = None
         if _bound and explicitly_named and explicitly_named[0] in ignored:
